@@ -121,6 +121,26 @@ func nonNeg(c *Ctx, v ssa.Value, b *ssa.BasicBlock, depth int) bool {
 		return true
 	}
 	switch v := v.(type) {
+	case *ssa.Parameter:
+		// a parameter of a function that is only called directly: non-negative at every call
+		f := v.Parent()
+		idx := -1
+		for i, q := range f.Params {
+			if q == v {
+				idx = i
+			}
+		}
+		sites, ok := c.staticCallers(f)
+		if !ok || idx < 0 || len(sites) == 0 || depth > 4 {
+			return false
+		}
+		for _, s := range sites {
+			args := s.Common().Args
+			if idx >= len(args) || !nonNeg(c, args[idx], s.Block(), depth+2) {
+				return false
+			}
+		}
+		return true
 	case *ssa.Call:
 		if bi, ok := v.Call.Value.(*ssa.Builtin); ok && (bi.Name() == "len" || bi.Name() == "cap") {
 			return true
@@ -308,6 +328,21 @@ func runRangeGuard(c *Ctx, r *Result, rule string, want int64) {
 			return (op == token.LEQ && k == want) || (op == token.LSS && k == want+1)
 		})
 		hiAny := guardedCmp(size, ci.Block(), func(op token.Token, k int64) bool { return op == token.LEQ || op == token.LSS })
+		if !(lo && hiExact) {
+			// the test may live in a helper that computes the size: ask the interval prover, which
+			// knows the range of a helper's result over all its returns
+			bndCtx = c
+			p := newBndProver(c, ci, 0)
+			x := bnorm(size)
+			lo = lo || p.prove(zeroLin, x)
+			if !hiExact && p.prove(x, blin{c: want}) {
+				// not a looser bound than stated: the bound is exact unless something smaller holds too
+				hiExact = !p.prove(x, blin{c: want - 1})
+				hiAny = true
+			} else if !hiAny {
+				hiAny = p.prove(x, blin{c: 1 << 40})
+			}
+		}
 		switch {
 		case lo && hiExact:
 			o.Verdict, o.Reason = Discharged, fmt.Sprintf("0 <= size <= %d is established by dominating tests before the slice is allocated", want)
